@@ -128,4 +128,67 @@ def sequentialDict (w : World) (ks : List (String × Nat)) : World × Nat :=
 /-- order in which `Sequential.forward` applies its submodules -/
 def applyOrder (w : World) (m : Nat) : List Nat := match w.mods[m]? with | none => [] | some M => M.subs.map (·.2)
 
+/-! ### Collections owned by the caller
+
+A container constructor may be handed an object of the calling program: `Sequential(d)` with `d` an `OrderedDict`, or
+`Sequential(*l)` with `l` a list of modules.  Such objects have a life of their own: the caller may build a second container from
+the same object, or add / remove / replace / reorder its entries afterwards.  The world of modules is kept apart from them: the
+constructor COPIES the registrations out of the collection (`seqFrom`), and no operation on a collection touches a module. -/
+
+/-- a collection object of the calling program: an `OrderedDict` name ↦ module, or a list of modules (names unused) -/
+structure Coll where
+  isDict : Bool
+  items : List (String × Nat)
+deriving Repr, DecidableEq
+
+/-- the module world together with the caller's collection objects -/
+structure CWorld where
+  w : World := World.empty
+  colls : List Coll := []
+deriving Repr
+
+def newColl (cw : CWorld) (c : Coll) : CWorld × Nat := ({ cw with colls := cw.colls ++ [c] }, cw.colls.length)
+
+def updColl (cw : CWorld) (i : Nat) (f : Coll → Coll) : CWorld :=
+  { cw with colls := cw.colls.zipIdx.map (fun (x, j) => if j = i then f x else x) }
+
+/-- `d[name] = module`;  `l[i] = module` (`l.append(module)` when `i` is not an index of `l`) -/
+def Coll.put (c : Coll) (name : String) (k : Nat) : Coll :=
+  if c.isDict then { c with items := odSet c.items name k }
+  else match name.toNat? with
+    | some i => if i < c.items.length then { c with items := c.items.set i ("", k) } else { c with items := c.items ++ [("", k)] }
+    | none => c
+
+/-- `d.pop(name, None)`;  `del l[i]` (nothing when `i` is not an index) -/
+def Coll.del (c : Coll) (name : String) : Coll :=
+  if c.isDict then { c with items := odPop c.items name }
+  else match name.toNat? with
+    | some i => { c with items := c.items.eraseIdx i }
+    | none => c
+
+/-- `d.move_to_end(name, last)` when the key exists;  `l.append(l.pop(i))` / `l.insert(0, l.pop(i))` -/
+def Coll.move (c : Coll) (name : String) (last : Bool) : Coll :=
+  if c.isDict then
+    match c.items.find? (·.1 == name) with
+    | some e => let rest := odPop c.items name; { c with items := if last then rest ++ [e] else e :: rest }
+    | none => c
+  else match name.toNat? with
+    | some i =>
+      match c.items[i]? with
+      | some e => let rest := c.items.eraseIdx i; { c with items := if last then rest ++ [e] else e :: rest }
+      | none => c
+    | none => c
+
+def Coll.clear (c : Coll) : Coll := { c with items := [] }
+/-- `l.reverse()`;  for a dict `for k in reversed(list(d)): d.move_to_end(k)` -/
+def Coll.rev (c : Coll) : Coll := { c with items := c.items.reverse }
+
+/-- `Sequential(d)` / `Sequential(*l)`: the entries are registered one by one in the NEW module's own registry -/
+def seqFrom (cw : CWorld) (i : Nat) : CWorld × Option Nat :=
+  match cw.colls[i]? with
+  | none => (cw, none)
+  | some c =>
+    let r := if c.isDict then sequentialDict cw.w c.items else sequential cw.w (c.items.map (·.2))
+    ({ cw with w := r.1 }, some r.2)
+
 end Synap.Modules
